@@ -254,6 +254,27 @@ def main(argv=None):
     gen = lang.Gen(rng, max_depth=3, p_cond=0.2, funcs=["exp", "cos", "sin", "atan", "log", "sqrt", "abs", "floor", "tan"], allow_mod=False,
                    allow_ccond=False, allow_rel_arith=False)
     core.CASE_SECONDS = 240
+    if a.replay:
+        import json as _json
+        data = _json.load(open(a.replay))
+        if data.get("mmt"):
+            text = data["mmt"]
+            def replayed():
+                model = myokit.parse_model(text)
+                model.validate()
+                r = compare_with_myokit(rep, model, None, "replay", text=text, rng=rng)
+                if r is not None:
+                    back_to_myokit(rep, r[0], "replay -> myokit")
+            core.guarded(rep, text, replayed)
+        elif data.get("text"):
+            text = data["text"]
+            ode, _, err, _ = impl.load_text(text)
+            if err is None:
+                core.guarded(rep, text, back_to_myokit, rep, ode, "replay")
+        else:
+            rep.notes.append("the replay file holds neither an .mmt nor an .ode text")
+        rep.case(key=a.replay, nontrivial=True)
+        return rep.finish(level="proof", rule="replay of " + a.replay, trusted_base=["see the full check"])
     # ---- shipped files
     files = sorted(glob.glob(str(core.REPO / "tests" / "mmt_files" / "*.mmt"))) + sorted(glob.glob(str(core.REPO / "tests" / "cellml_files" / "*.cellml")))
     if a.tier == "quick":
